@@ -58,4 +58,8 @@ CLAIMED["C06"] = {"text": "Match / SetAdmits / Select / Satisfied are specified 
                   "design_ref": "3/C06", "note": _TB + " Wildcard-vs-wildcard matches are only required to be symmetric.",
                   "technique": "TLC exhaustive enumeration of the stated finite domain; results of the real predicates validated by TLC"}
 
+CLAIMED["C17"] = {"text": "The dpkg changelog format is specified in TLA+ (entry model, renderer with entry end offsets, expected parse, and the relation AllowedCut saying what parsing a prefix may return: exactly k entries at an entry boundary, all-or-error when only the final newline is missing, an error inside an entry). TLC renders all changelogs of the bounded model; the real Parse runs on the full text and on every prefix, ParseOne repeatedly, and on single-byte corruptions; the ParseOne/Parse line machine is model-checked for 'all entries or an error'.",
+                  "design_ref": "3/C17", "note": _TB + " Timestamps are compared as civil fields plus zone offset (no epoch arithmetic in TLC).",
+                  "technique": "TLA+ changelog renderer + truncation relation; every-prefix fault enumeration judged by TLC; line machine model-checked"}
+
 NOT_APPLICABLE = {}
